@@ -303,9 +303,9 @@ def _unit_modifiers(ctx, rid, bm, ps):
     wb = _branch(bm.node, "modifierspec['type']", None, "staterror")
     rb = _branch(ps.node, "modtag.tag", None, "StatError")
     try:
-        wdiv = next(c for c in A.calls_in(ast.Module(body=wb.body, type_ignores=[])) if A.call_attr(c) == "divide")
-        env = {"modifierspec": {"data": U, "name": "m", "type": "staterror"}, "sampledata": N, "np": Obj("np")}
-        wv = to_poly(Interp(env, {}, {}).eval(wdiv))
+        wexp = next(c for c in A.calls_in(ast.Module(body=wb.body, type_ignores=[])) if A.call_attr(c) == "_export_root_histogram")
+        env = {"modifierspec": {"data": U, "name": "m", "type": "staterror"}, "sampledata": N, "np": Obj("np"), "attrs": {"HistoName": "h"}}
+        wv = to_poly(Interp(env, {}, {}).eval(wexp.args[1]))
         rmul = next(c for c in A.calls_in(ast.Module(body=rb.body, type_ignores=[])) if A.call_attr(c) == "multiply")
         rv = to_poly(Interp({"extstat": wv, "data": N, "np": Obj("np")}, {}, {}).eval(rmul))
         if rv == U:
